@@ -1,4 +1,6 @@
+#![allow(dead_code)]
 mod clone_l1;
+mod reader_l1;
 mod recreader;
 mod refcodec;
 mod tracefile;
@@ -11,6 +13,7 @@ fn main() {
     }
     match args[1].as_str() {
         "clone-l1" => clone_l1::main(&args[2..]),
+        "reader-l1" => reader_l1::main(&args[2..]),
         x => {
             eprintln!("unknown subcommand {}", x);
             std::process::exit(2);
